@@ -1,6 +1,7 @@
 package c07
 
 import (
+	"fmt"
 	"strings"
 	"testing"
 
@@ -115,6 +116,8 @@ func TestC07Guard(t *testing.T) {
 		{K: "create", M: mSong, A: 7, V: 1},
 		{K: "create", M: mWidget, A: 5, V: 7},
 		{K: "first", M: mWidget, A: 5},
+		{K: "loop", M: mGadget, A: 1},
+		{K: "loop", M: mReview, A: 2},
 		{K: "take", M: mTag, A: 1},
 		{K: "last", M: mGadget},
 		{K: "findbatches", M: mGadget},
@@ -158,6 +161,11 @@ func TestC07Guard(t *testing.T) {
 		{K: "find", M: mWidget, S: 1 | 2 | 16 | 32 | 256},
 		{K: "create", M: mTag, A: 6, V: 1, S: 4 | 8 | 128},
 	}
+	// operations whose statement is refused when it is executed
+	for b := range badvalUses {
+		script = append(script, Op{K: "badval", M: mGadget, A: 1, B: b, V: 1}, Op{K: "badval", M: mReview, A: 1, B: b, V: 1})
+	}
+	script = append(script, Op{K: "loop", M: mTag, A: 1, B: 1})
 	// operations that must fail, with the database's error
 	bad := map[string]string{
 		"badraw(Gadget 1 v1)":   "err=no such table: c07_missing_1",
@@ -188,6 +196,22 @@ func TestC07Guard(t *testing.T) {
 		c.Programs = [][]Op{script}
 		first := runSerial(&c)
 		for i, r := range first.results[0] {
+			if script[i].K == "badval" {
+				if !strings.HasPrefix(r, "err=CHECK constraint failed") {
+					t.Errorf("harness: %s must be refused by the CHECK constraint: %s", script[i], r)
+				}
+				continue
+			}
+			if script[i].K == "loop" {
+				want := fmt.Sprintf("ok loop updated=%d failed=0", loopN)
+				if script[i].B == 1 {
+					want = fmt.Sprintf("ok loop updated=0 failed=%d first error at #0: CHECK constraint failed", loopN)
+				}
+				if !strings.HasPrefix(r, want) {
+					t.Errorf("harness: %s returned %q, want %q", script[i], r, want)
+				}
+				continue
+			}
 			if want, isBad := bad[script[i].String()]; isBad || strings.HasPrefix(script[i].K, "bad") {
 				if !isBad || !strings.HasPrefix(r, want) {
 					t.Errorf("harness: operation %s must fail with %q (prepare=%v): %s", script[i], want, c.Prepare, r)
